@@ -324,6 +324,14 @@ func truncConstraint(c *smt.Ctx, x *smt.Term, k int64) *smt.Term {
 
 // ConcretizeInt enumerates the feasible values of int(x) (truncation toward zero).
 func (p *PathState) ConcretizeInt(in *Interp, x *smt.Term, why string) int64 {
+	if x.Op == smt.OConstN {
+		// an exact rational constant: truncate toward zero exactly
+		if x.R == nil {
+			return int64(math.Trunc(x.F))
+		}
+		q := new(big.Int).Quo(x.R.Num(), x.R.Denom()) // Quo truncates toward zero
+		return q.Int64()
+	}
 	if in.spec != nil {
 		panic(specAbort{})
 	}
